@@ -357,6 +357,21 @@ def run(chk):
         re_ = list(map(float, mbins.pack_values(*[np.array(a) for a in un])))
         if re_ != y:
             chk.fail("packing and unpacking are inverse", lay, dict(y=y[:5], repacked=re_[:5]))
+        # the packed vector is the documented concatenation whatever the TYPE of a component (integer counts, single precision, lists)
+        for kind_ in ("int64 counts", "list of ints", "float32 counts"):
+            Ns_x = [float(int(v_)) for v_ in un[0]]
+            first_ = np.array(Ns_x, dtype=np.int64) if kind_ == "int64 counts" else [int(v_) for v_ in Ns_x] if kind_ == "list of ints" else np.array(Ns_x, dtype=np.float32)
+            try:
+                pk_ = np.asarray(mbins.pack_values(first_, *[np.array(a_) for a_ in un[1:]]), dtype=float)
+            except Exception as e:  # noqa
+                chk.fail("packing and unpacking are inverse", dict(lay, counts_as=kind_), dict(error=type(e).__name__, msg=str(e)[:80]))
+                continue
+            want_ = np.array(Ns_x + [v_ for a_ in un[1:] for v_ in a_], dtype=float)
+            chk.count("packing with counts given as another type")
+            if pk_.shape != want_.shape or not np.array_equal(pk_, want_):
+                j_ = int(np.flatnonzero(pk_ != want_)[0]) if pk_.shape == want_.shape else -1
+                chk.fail("packing and unpacking are inverse", dict(lay, counts_as=kind_),
+                         dict(index=j_, packed=float(pk_[j_]) if j_ >= 0 else None, expected=float(want_[j_]) if j_ >= 0 else None))
         if [len(a) for a in un] != [nb.MS, nb.MS, nb.WD, nb.NS, nb.BH, nb.WD, nb.NS, nb.BH]:
             chk.fail("unpacked components follow the documented order and sizes", lay, [len(a) for a in un])
         L = "{| nMS := %d; nWD := %d; nNS := %d; nBH := %d |}" % (nb.MS, nb.WD, nb.NS, nb.BH)
@@ -378,7 +393,9 @@ def run(chk):
 
 def replay(chk, payload):
     lay = payload["failure"]["input"]
-    lay = {k: lay[k] for k in ("breaks", "nbins", "method", "ifmr", "form")}
+    if not isinstance(lay, dict) or not all(k in lay for k in ("breaks", "nbins", "method", "ifmr", "form")) or "counts_as" in lay or "m" in lay:
+        return run(chk)          # lookup / truncation / packing clauses: the whole run is re-created (same seed and tier)
+    lay = {k: lay[k] for k in ("breaks", "nbins", "method", "ifmr", "form", "imf_comps") if k in lay}
     lay["ifmr"] = tuple(lay["ifmr"])
     try:
         mbins, ifm = build(lay)
